@@ -682,7 +682,7 @@ def search(ctx, prop, n=600):
 
 def replay(ctx, rec, prop):
     case = rec["case"]
-    if rec.get("component") in ("engine.custom_serdes", "engine.rejected_invoke"):
+    if rec.get("component") in ("engine.custom_serdes", "engine.rejected_invoke", "engine.nested_fail"):
         # oracle-only scenarios (user-supplied serializers, rejected payloads are not in the model): replayed on the
         # real code and judged by the oracles alone, as in the run that recorded them
         ex = E.run_execution(case["script"], case.get("seed", 0), crash_p=0.0, fault_p=0.0, plans=case.get("plans"),
@@ -837,6 +837,20 @@ def extra(ctx, prop):
             run_oracles(ctx, ex, "engine.rejected_invoke", only_prop=prop)
             ctx.case((json.dumps(script, sort_keys=True), json.dumps(ex["plans"], sort_keys=True)) if len(ex["invs"]) >= 2 else None)
             ctx.count("invoke.rejected_payload")
+    if prop == "C08":
+        # nested contexts that fail: the FAIL of an inner context names the enclosing context as its parent, like its START
+        # (seeded C08-8; judged by the oracles alone)
+        for i in range(ctx.scale(12, 120)):
+            bad = {"op": "step", "body": [{"err": {"cls": "Boom", "msg": "x"}}], "amo": False,
+                   "retry": {"max": 1, "delays": [], "noretry": []}, "catch": False}
+            ok = {"op": "step", "body": [{"ok": ctx.rng.choice(["s", "i5", "t"])}], "amo": False,
+                  "retry": {"max": 1, "delays": [], "noretry": []}, "catch": True}
+            inner = {"op": "child", "body": ([ok] if i % 2 else []) + [bad], "limit": 200, "summary": "", "catch": bool(i % 3)}
+            script = [{"op": "child", "body": ([ok] if i % 4 < 2 else []) + [inner], "limit": 200, "summary": "", "catch": True}, ok]
+            ex = E.run_execution(script, ctx.rng.randrange(1 << 30), crash_p=0.0, fault_p=0.0, max_inv=4)
+            run_oracles(ctx, ex, "engine.nested_fail", only_prop=prop)
+            ctx.case(json.dumps(script, sort_keys=True))
+            ctx.count("context.nested_fail")
     if prop == "C13":
         # a user-supplied serializer with its own format: poll n+1 receives exactly what poll n returned, over several
         # invocations (oracle-only; judged on the states the check function was actually handed)
